@@ -5,7 +5,7 @@
    OCIDocument.Validate / BlobDocument.Validate. [to_c08_oci] / [to_c08_blob]
    translate a C09 document field by field (C09_Compose.v).
    Statements only; every proof is [exact <lemma of C09_Compose>]. *)
-From NV Require Import Base C09_Model C09_Compose.
+From NV Require Import Base C09_Model C09_Compose C08_AuditC09.
 From NV Require C08_Model.
 Open Scope string_scope.
 
@@ -36,3 +36,64 @@ Example C08_from_C09_example :
   /\ map C08_Model.s_scopes (to_c08_oci ex3) =
        [["registry.acme-rockets.io/net"; "localhost:5000/a"]; ["registry.acme-rockets.io/unsigned"]; ["*"]].
 Proof. repeat split; vm_compute; reflexivity. Qed.
+
+(* ---- added by the theorem audit (docs/audit/C08.md): C08 end to end over documents accepted
+   by the C09 model of Validate - no valid_doc / scope_ok hypothesis is left ---- *)
+
+(* every non-wildcard scope a validated OCI document lists selects its own statement *)
+Theorem C08_listed_scope_selects_from_C09 : forall d i s p dg,
+  validate_oci d = EOk -> C08_Model.i_doc i = to_c08_oci d ->
+  In s (to_c08_oci d) -> In p (C08_Model.s_scopes s) -> p <> wildcard ->
+  contains_byte "@" dg = false -> C08_Model.i_q1 i = C08_Model.QOci (p ++ "@" ++ dg) ->
+  C08_Model.o_r1 (C08_Model.model i) = C08_Model.RSel s.
+Proof. exact c09_listed_scope_selects. Qed.
+Print Assumptions C08_listed_scope_selects_from_C09.
+
+(* an unlisted registry/repository gets the wildcard statement, or is refused *)
+Theorem C08_unlisted_scope_from_C09 : forall d i p dg,
+  validate_oci d = EOk -> C08_Model.i_doc i = to_c08_oci d ->
+  C08_Model.scope_ok p = true -> contains_byte "@" dg = false ->
+  C08_Model.i_q1 i = C08_Model.QOci (p ++ "@" ++ dg) ->
+  (forall s, In s (to_c08_oci d) -> ~ In p (C08_Model.s_scopes s)) ->
+  (forall w, In w (to_c08_oci d) -> In wildcard (C08_Model.s_scopes w) ->
+     C08_Model.o_r1 (C08_Model.model i) = C08_Model.RSel w)
+  /\ ((forall s, In s (to_c08_oci d) -> ~ In wildcard (C08_Model.s_scopes s)) ->
+      C08_Model.o_r1 (C08_Model.model i) = C08_Model.RErr 3).
+Proof. exact c09_unlisted_scope. Qed.
+Print Assumptions C08_unlisted_scope_from_C09.
+
+(* every statement of a validated blob document whose name is not blank is the answer to
+   its own name; the global statement is the answer when no name is given *)
+Theorem C08_named_selects_from_C09 : forall d i s,
+  validate_blob d = EOk -> C08_Model.i_doc i = to_c08_blob d ->
+  In s (to_c08_blob d) -> C08_Model.blank (C08_Model.s_name s) = false ->
+  C08_Model.i_q1 i = C08_Model.QName (C08_Model.s_name s) ->
+  C08_Model.o_r1 (C08_Model.model i) = C08_Model.RSel s.
+Proof. exact c09_named_selects. Qed.
+Print Assumptions C08_named_selects_from_C09.
+
+Theorem C08_global_selects_from_C09 : forall d i s,
+  validate_blob d = EOk -> C08_Model.i_doc i = to_c08_blob d ->
+  In s (to_c08_blob d) -> C08_Model.s_global s = true ->
+  C08_Model.i_q1 i = C08_Model.QGlobal ->
+  C08_Model.o_r1 (C08_Model.model i) = C08_Model.RSel s.
+Proof. exact c09_global_selects. Qed.
+Print Assumptions C08_global_selects_from_C09.
+
+(* the exception is real: Validate accepts a blob document with a statement named " ", and
+   that statement is refused for its own name (error 4, "policy name cannot be empty") *)
+Theorem C08_blank_named_statement_refuted :
+  exists d s, validate_blob d = EOk /\ In s (to_c08_blob d) /\
+    forall i, C08_Model.i_doc i = to_c08_blob d ->
+              C08_Model.i_q1 i = C08_Model.QName (C08_Model.s_name s) ->
+              C08_Model.o_r1 (C08_Model.model i) = C08_Model.RErr 4.
+Proof. exact c09_blank_named_unselectable. Qed.
+Print Assumptions C08_blank_named_statement_refuted.
+
+(* non-vacuity of the two positive theorems on the example document *)
+Example C08_from_C09_selects_example :
+  let i := C08_Model.mk_input (to_c08_oci ex3) true (C08_Model.QOci "localhost:5000/a@sha256:00") []
+             C08_Model.QGlobal false false in
+  C08_Model.o_r1 (C08_Model.model i) = C08_Model.RSel (nth 0 (to_c08_oci ex3) C08_Model.dummy_stmt)
+  /\ In "localhost:5000/a" (C08_Model.s_scopes (nth 0 (to_c08_oci ex3) C08_Model.dummy_stmt)).
+Proof. split; [vm_compute; reflexivity | right; left; reflexivity]. Qed.
